@@ -118,7 +118,8 @@ class PySnmpCodeGen(IntermediateCodeGen):
             for key, value in tuple(dct.items()):
                 if isinstance(value, dict):
                     translateOids(value)
-                elif key == 'oid':
+                elif key == 'oid' and hasattr(value, 'split'):
+                    # (an enumeration or BITS label may be called "oid" too)
                     dct[key] = tuple(int(x) for x in value.split('.'))
 
         translateOids(context)
